@@ -17,7 +17,8 @@ PART 1 (about a third of your effort): TWO seeded changes (not three) as describ
 
 PART 2 (about two thirds of your effort): hunt for EXISTING violations of this property in the UNCHANGED tree. Earlier rounds' side remarks led to two dozen confirmed defects (examples of what was real: a hang when a peer goes away in a particular state; bytes lost or added at a boundary; a legal input answered with an error; a resource never released; state left behind by the previous exchange on the same connection; an option combination nobody tested). Read the code the anchors point to and its callers and helpers with that eye, think about unusual but LEGAL inputs, sequences, timings and option combinations, and TRY your suspicions: for each one write a small Go test (exported API or package-internal, no changes to library code) that FAILS on the unchanged tree because the property is violated, and PASSES if the library behaved as the property says. Deliver each confirmed one as {out}/obs/<n>/ with the *_test.go, the package directory to copy it to, the command, the observed output, and three lines on why it violates the property as stated and what a minimal repair would be (do not implement repairs). Up to five; quality over quantity; a suspicion you could not confirm goes into your final message in two sentences, not into obs/. Behaviour that is merely unspecified, a matter of taste, or net/http's own doing does not count."""
 EMPH7 = """For this round (time-boxed: aim to finish within about 50 minutes, TWO changes) imitate the commits that really slip through review: (a) a REFACTORING that is almost behaviour-preserving (a helper extracted and one call site passes the wrong one of two similar values; a loop rewritten with a different termination or index; an early return added before a clean-up; a struct copied where a pointer was shared or the reverse; an error now wrapped, swallowed or returned on a path where it was not); (b) a PERFORMANCE change (a buffer, pool or cached value reused across calls or connections; a lock narrowed; a copy avoided; lazy initialisation; batching of writes or flushes); (c) a FEATURE or DEFAULT change that is right for the case its author had in mind and wrong for a neighbouring one (a new option whose zero value changes existing behaviour; a stricter or laxer validation; a different default size, timeout or limit); (d) a MIGRATION to another standard-library call with subtly different semantics (io.ReadAll vs ReadFull, strings.Cut vs SplitN, net.SplitHostPort vs manual parsing, http.Header.Get vs Values, time.After vs Timer, context cancellation order). Choose code sites and triggers that the list above does not contain; read more of the package than the anchors. Legitimate triggers only (no reconfiguration of a proxy while it serves traffic, no concurrent use of types the unchanged tree does not synchronise). The change must be a clear violation of the property as stated."""
-EMPH = {"4": EMPH4, "5": EMPH5, "6": EMPH6, "7": EMPH7, "8": EMPH7}.get(rnd, EMPH5)
+EMPH9 = """For this round (time-boxed: aim to finish within about 50 minutes, TWO changes) go OUTSIDE the anchored functions: break the property through something the anchored code DEPENDS ON or that runs around it - a shared helper package (proxyutil, messageview, parse, filter, verify, martianurl matchers, h2 queued frames / hpack handling, trafficshape buckets and handler, mitm cache and certificate template, log/err helpers, context and session bookkeeping), a constructor or option default, an init-time registration, the order of modifiers in a stack or group that ships with the library (httpspec, cmd/proxy wiring, mobile), a type's zero value or copy semantics, an interface a wrapper forgets to forward (io.ReaderFrom, http.Flusher, CloseWrite, SetDeadline, Unwrap). The edit itself should look unrelated to the property (a tidy-up, a lint fix, a Go-version modernisation such as errors.Is / any / slices / strings.Cut / for-range-int, a dependency-free rewrite of a helper). Choose triggers the list above does not contain. Legitimate triggers only (no reconfiguration of a proxy while it serves traffic, no concurrent use of types the unchanged tree does not synchronise). The change must be a clear violation of the property as stated."""
+EMPH = {"4": EMPH4, "5": EMPH5, "6": EMPH6, "7": EMPH7, "8": EMPH7, "9": EMPH9}.get(rnd, EMPH5)
 for p in props:
     pid = p["id"]
     prev = []
@@ -69,7 +70,7 @@ Put a stub go.mod into {wt}/{out}/ so that ./... does not descend into it. Deliv
   - README.md  : which clause of the property the change breaks, why the existing tests do not notice, a section headed '## What it needs to manifest' (input shape / sequence / timing), and the observed output of the demonstration with and without the change.
 Before finishing, for each change start from a clean tree (`git checkout -- . && git clean -fd -e {out}`), apply patch.diff, run build + full test-suite + the demonstration (must fail), then revert and run the demonstration again (must pass). Leave the worktree clean except for {out}/. Your final message: a short table of the changes (one line each: file, what breaks, what it needs to manifest){{FINAL}}.
 """
-    if rnd in ("7", "8"):
+    if rnd in ("7", "8", "9"):
         txt = txt.replace("{PART}", "").replace("{NCH}", "TWO").replace("{IDX}", "1, 2").replace("{FINAL}", "").replace("{out}", out)
     elif rnd == "6":
         txt = txt.replace("{PART}", " for PART 1").replace("{NCH}", "TWO").replace("{IDX}", "1, 2").replace("{FINAL}", ", then the list of confirmed observations of PART 2 (one line each with the obs/<n> directory) and the unconfirmed suspicions").replace("{out}", out)
